@@ -93,6 +93,7 @@ type xl struct {
 	paramGoIdx  map[string]int     // Coq parameter -> position of the declared Go parameter
 	fragLoc     *located
 	mutFields   []string
+	zeroStructs map[string]bool // structs declared by `var` inside a recording fragment
 	loopDefs    []string
 	coqName     string
 	panicSites  int
